@@ -43,7 +43,7 @@ m("collection-dedupe-type", "_snapshot/collection_value.py", "            if ite
 
 # ---- C02
 m("return-old-under-fix", "_snapshot/generic_value.py", "        if flags.fix or flags.create or flags.update or self._old_value is undefined:", "        if self._old_value is undefined:", ["C02", "C07"], "comparison answers the old result under create/fix: test aborts at first failing snapshot (asserting style)")
-m("addx-off", "_align.py", '            result += "x" * g[1]\n            i += 1', '            result += g[0] * g[1]', ["C11"], "never produce x (replace) - only affects which text survives")
+m("addx-off", "_align.py", '            result += "x" * g[1]\n            i += 1', '            result += g[0] * g[1]', [], "never produce x (replace): equivalent w.r.t. the guaranteed set (informational)")
 m("dict-insert-pos", "_adapter/dict_adapter.py", "                insert_pos += 1", "                insert_pos += 2", ["C02", "C18"], "off-by-one insert position for dict entries")
 m("tuple1-comma", "_change.py", '        if elements == 1 and isinstance(parent, ast.Tuple):', '        if False:', ["C02"], "1-tuple loses its trailing comma after deletion")
 m("delete-wrong-kw", "_adapter/generic_call_adapter.py", "                    kw.value,\n                    self.argument(old_value, kw.arg),", "                    old_node.keywords[0].value,\n                    self.argument(old_value, kw.arg),", ["C02"], "Delete of the wrong keyword")
@@ -82,6 +82,15 @@ m("minmax-trim-halfway", "_snapshot/min_max_value.py", "        new_token = valu
 m("seq-update-drops-insert-when-deleting", "_change.py", '    if new_code or deleted or elements == 1 or len(parent_elements) <= 1:\n        code = ", ".join(new_code)', '    if new_code or deleted or elements == 1 or len(parent_elements) <= 1:\n        code = ", ".join([] if deleted and len(parent_elements) > 2 else new_code)', ["C09", "C05"], "an append is lost when the last element is deleted in the same edit (only when categories are applied together)")
 m("virtual-dict-trim-then-create", "_snapshot/dict_value.py", "                len(self._old_value),\n                new_code,", "                len(self._new_value),\n                new_code,", ["C09", "C05", "C18"], "DictInsert position computed from the new value (differs once keys were trimmed)")
 m("collection-fix-position", "_snapshot/collection_value.py", "                position=len(self._old_value),", "                position=len([v for v in self._old_value if v in self._new_value]),", ["C09", "C05", "C18"], "`in` append position ignores members that are only trimmed in another run")
+
+
+# ---- C11
+m("align-tiebreak", "_align.py", "            new_line.append(max(values))", "            new_line.append(min(values) if len(values) == 3 and a == 'b' else max(values))", ["C11"], "alignment loses matches for some elements")
+m("prefix-off-by-one", "_align.py", '    return "m" * start + diff + "m" * end', '    return "m" * start + diff + "m" * end if start < 2 else "m" * (start - 1) + "di" + diff + "m" * end', ["C11"], "last element of the equal prefix is treated as replaced")
+m("no-compare-context", "_adapter/sequence_adapter.py", "        with compare_context():\n            diff = add_x(align(old_value, new_value))", "        diff = add_x(align(old_value, new_value))", ["C18"], "nested snapshots are committed while aligning")
+m("equal-leaf-rewritten", "_adapter/value_adapter.py", '            flag = "update"', '            flag = "fix" if isinstance(old_value, int) else "update"', ["C11", "C05"], "equal int leaves with non-canonical text are rewritten under fix")
+m("dict-rewrite-whole", "_adapter/dict_adapter.py", "            if not (\n                isinstance(old_node, ast.Dict) and len(old_value) == len(old_node.keys)\n            ):", "            if not (\n                isinstance(old_node, ast.Dict) and len(old_value) == len(old_node.keys) and len(old_value) < 3\n            ):", ["C11"], "dicts with 3+ entries are replaced as a whole")
+m("suffix-strip-off", "_align.py", "        if a == b:\n            end += 1\n        else:\n            break", "        break", [], "no suffix stripping: equivalent (informational)")
 
 
 def make_copy(mut):
